@@ -136,6 +136,26 @@ class World:
             n = self.add_text(bound)
             if self.info[n] is not None:
                 self.exotic[4326] += [("str", n), ("pyproj-text", n)]
+        # code-less systems: pairwise different, no EPSG code at any confidence (`.epsg` looks up None, the third
+        # state of the lazy `_epsg` next to "not looked up" and "code")
+        self.codeless: List[List[Tuple[str, Any]]] = []
+        for s in ("+proj=tmerc +lat_0=10 +lon_0=20 +k=0.9996 +x_0=500000 +y_0=0 +ellps=GRS80 +units=m +no_defs +type=crs",
+                  "+proj=laea +lat_0=-30 +lon_0=140 +x_0=0 +y_0=0 +ellps=GRS80 +units=m +no_defs +type=crs",
+                  "+proj=sinu +lon_0=15 +x_0=0 +y_0=0 +R=6371007.181 +units=m +no_defs +type=crs",
+                  "+proj=omerc +lat_0=4 +lonc=115 +alpha=53.3 +k=0.99984 +x_0=0 +y_0=0 +gamma=53.1 +ellps=evrstSS "
+                  "+units=m +no_defs +type=crs",
+                  "ESRI:54009", "ESRI:54008", "ESRI:54030", "ESRI:102001"):
+            try:
+                p = pyproj.CRS.from_user_input(s)
+            except Exception:  # pylint: disable=broad-except
+                continue
+            if p.to_epsg() is not None or p.to_epsg(min_confidence=20) is not None and not s.startswith("+proj=omerc"):
+                continue
+            n = self.add_text(s)
+            w = self.add_text(p.to_wkt())
+            if self.info[w]["epsg"] is not None or self.info[n]["epsg"] is not None:
+                continue
+            self.codeless.append([("str", n), ("str", w), ("pyproj-text", n), ("str", self.add_text(p.to_json()))])
         # specs that pyproj rejects
         self.bad_names = [self.add_text("EPSG:999999"), self.add_text("not-a-crs")]
         self.einfo[999999] = None
